@@ -3,14 +3,15 @@ P21 = "Claripy.Props.C21."
 P22 = "Claripy.Props.C22."
 V = "Claripy.VSA."
 THEOREMS_C21 = [P21 + n for n in ("C21_add_sound", "C21_add_closed", "C21_sub_sound", "C21_sub_closed", "C21_neg_sound",
-                                  "C21_not_sound", "C21_zext_sound", "C21_ucmp_sound", "C21_scmp_sound", "C21_cast_low_sound", "C21_extract_sound", "C21_udiv_sound", "C21_lshr_sound", "C21_shl_sound",
+                                  "C21_not_sound", "C21_zext_sound", "C21_ucmp_sound", "C21_scmp_sound", "C21_cast_low_sound", "C21_extract_sound", "C21_sext_sound", "C21_udiv_sound", "C21_lshr_sound", "C21_shl_sound",
                                   "sdiv_unsound", "mul_unaligned_unsound")] + \
                [V + n for n in ("ssplit_spec", "ssplit_wrap", "not_sound", "zext_sound", "ucmp_sound", "cmpWith_sound",
                                 "unsignedBounds_spec", "not_piece_mem", "widen_bits_mem",
                                 "udiv_sound", "wudiv_piece", "overRange_sup", "rshiftLogicalK_sound", "rshift_piece_mem", "lshr_sound",
                                 "lshiftK_sound", "shl_sound", "getShiftRange_covers",
                                 "nsplit_straddle", "signedBounds_spec", "scmp_sound", "toSigned_nat", "new_renorm",
-                                "castLow_sound", "extract_sound", "ntz_dvd")] + \
+                                "castLow_sound", "extract_sound", "ntz_dvd",
+                                "sext_sound", "sext_piece", "nsplit_cover", "msb_all", "sextKeeps_sound", "sext_val")] + \
                [V + n for n in ("add_sound", "add_WF", "sub_sound", "sub_WF", "neg_sound", "neg_WF", "mem_new", "mem_top", "new_WF",
                                 "overflow_false", "cd_add", "cd_sub", "lastMember_facts", "wrappedCard_nat")]
 TESTS_C21 = [P21 + "test_add_example"]
